@@ -23,6 +23,10 @@ Record task := mkTask {
   t_id : N; t_hook : N; t_ty : N; t_meta : bool; t_ctxs : list ctx; t_mids : list N }.
 
 Record result := mkResult { r_ctxs : list ctx; r_mids : list N }.
+(* Not modelled: the field CombineResult.AllowFailure (commit b66e651: false iff some
+   merged task does not allow failure; the caller and-s it into hookMeta.AllowFailure for
+   the retry decision, property C04).  It does not influence contexts, monitor ids or the
+   queue; the exported twin does not compute it. *)
 
 (* ---- q.Iterate(func(tsk) {...}) : lines 38-68 ---- *)
 (* state of the closure: (stopIterate, otherTasks).  [stopfn] is stopCombineFn
@@ -118,9 +122,13 @@ Definition delivered_mids (t : task) (r : option result) : list N :=
                                            (* if len(MonitorIDs) > 0 { hookMeta.MonitorIDs = ... } *)
   end.
 
-(* operator.go:564-573, the gate in front of the call (documented here, not part of the
-   function under study): combine is attempted only for a v1 hook that is going to run,
-   and not for a kubernetes Synchronization context without a group. *)
+(* operator.go, taskHandleHookRun: the gate in front of the call (documented here, not part
+   of the function under study): combine is attempted only for a v1 hook that is going to
+   run, and not for a kubernetes Synchronization context without a group.  Since commit
+   7b8a7f4 the caller passes a non-nil stopCombineFn when the head is a Synchronization
+   (stop at the first same-hook Synchronization task with ExecuteOnSynchronization =
+   false); the model, the spec and every theorem take [stopfn] as an arbitrary predicate,
+   so this is an instance. *)
 Definition should_combine (should_run_hook is_v1 is_kube_event first_is_synchronization : bool)
            (group : N) : bool :=
   should_run_hook && is_v1
